@@ -116,6 +116,8 @@ type sPlan struct {
 	// the same nodes and machines hold (other participant ids, other key): whatever a process remembers from that must
 	// not leak into the round under test
 	Prelude bool `json:"prelude,omitempty"`
+	// Interleave (with Prelude): the earlier round signs the same tasks again after every batch of this round
+	Interleave bool `json:"interleave,omitempty"`
 }
 
 // refMsg is one entry of the independent reference expansion of a proposal.
@@ -185,19 +187,21 @@ type batchObs struct {
 }
 
 type sigObs struct {
-	Plan      sPlan
-	Round     string
-	GroupKey  []byte
-	SharePubs [][]byte
-	Batches   []*batchObs
-	Prelude   *batchObs
-	Board     []storage.Message
-	NodeSigs  []sigrepo.SignaturesStorage
-	States    []string
-	Logs      [][]string
-	Err       error // harness-level trouble (API error on an honest action etc.)
-	Viol      *viol // a violation observed while the case ran
-	Tampered  int   // tampered requests whose results were refused
+	Plan         sPlan
+	Round        string
+	GroupKey     []byte
+	SharePubs    [][]byte
+	Batches      []*batchObs
+	Prelude      *batchObs
+	EarlierRound []*batchObs // everything signed in the earlier round (prelude and interludes)
+	Board        []storage.Message
+	NodeSigs     []sigrepo.SignaturesStorage
+	NodeSigsA    []sigrepo.SignaturesStorage // per node: the signature store of the earlier round
+	States       []string
+	Logs         [][]string
+	Err          error // harness-level trouble (API error on an honest action etc.)
+	Viol         *viol // a violation observed while the case ran
+	Tampered     int   // tampered requests whose results were refused
 }
 
 // fixtureGroupKey returns the group key of one of the fixture's rounds.
@@ -351,14 +355,15 @@ func runSigningCase(fx *world.Fixture, p sPlan, root string) *sigObs {
 	if obs.Err != nil {
 		return obs
 	}
-	if p.Prelude && len(p.Batches) > 0 && fx.RoundA != "" {
+	// signInEarlierRound proposes the first batch's tasks in the earlier round under a fresh batch id and lets that
+	// round's participants sign them
+	signInEarlierRound := func(tag string) (*batchObs, error) {
 		pb := sBatch{Proposer: 0, Tasks: p.Batches[0].Tasks}
-		h := sha256.Sum256([]byte(fmt.Sprintf("prelude|%v", pb.Tasks)))
-		bo := &batchObs{BatchID: fmt.Sprintf("prelude-%x", h[:6]), Ref: refExpand(pb.Tasks), Partials: map[int]requests.SigningProposalBatchPartialSignRequests{}, Answered: map[int]bool{}}
+		h := sha256.Sum256([]byte(fmt.Sprintf("%s|%v", tag, pb.Tasks)))
+		bo := &batchObs{BatchID: fmt.Sprintf("%s-%x", tag, h[:6]), Ref: refExpand(pb.Tasks), Partials: map[int]requests.SigningProposalBatchPartialSignRequests{}, Answered: map[int]bool{}}
 		gk, err := fixtureGroupKey(fx, fx.RoundA)
 		if err != nil {
-			obs.Err = err
-			return obs
+			return nil, err
 		}
 		bo.GroupKey = gk
 		req := pb.request(bo.BatchID, time.Now())
@@ -373,8 +378,7 @@ func runSigningCase(fx *world.Fixture, p sPlan, root string) *sigObs {
 			progress := w.PollAll()
 			for _, i := range fx.PartsA {
 				if ok, err := answerSigning(w, i, bo, ""); err != nil {
-					obs.Err = fmt.Errorf("prelude in the earlier round: operator %d: %w", i, err)
-					return obs
+					return nil, fmt.Errorf("signing in the earlier round (%s): operator %d: %w", tag, i, err)
 				} else if ok {
 					progress++
 				}
@@ -384,7 +388,16 @@ func runSigningCase(fx *world.Fixture, p sPlan, root string) *sigObs {
 			}
 		}
 		bo.Proposed = true
+		return bo, nil
+	}
+	if p.Prelude && len(p.Batches) > 0 && fx.RoundA != "" {
+		bo, err := signInEarlierRound("prelude")
+		if err != nil {
+			obs.Err = err
+			return obs
+		}
 		obs.Prelude = bo
+		obs.EarlierRound = append(obs.EarlierRound, bo)
 	}
 	for bi, b := range p.Batches {
 		bo := &batchObs{Ref: refExpand(b.Tasks), Partials: map[int]requests.SigningProposalBatchPartialSignRequests{}, Answered: map[int]bool{}}
@@ -543,6 +556,15 @@ func runSigningCase(fx *world.Fixture, p sPlan, root string) *sigObs {
 		}
 		w.PollAll()
 		w.PollAll()
+		if p.Prelude && p.Interleave && fx.RoundA != "" {
+			// the two rounds take turns: the earlier round signs the same tasks again between the batches of this one
+			bo, err := signInEarlierRound(fmt.Sprintf("interlude%d", bi))
+			if err != nil {
+				obs.Err = err
+				return obs
+			}
+			obs.EarlierRound = append(obs.EarlierRound, bo)
+		}
 	}
 	obs.Board = w.Board.All()
 	for i := range w.Nodes {
@@ -552,15 +574,8 @@ func runSigningCase(fx *world.Fixture, p sPlan, root string) *sigObs {
 			return obs
 		}
 		if obs.Prelude != nil {
-			// the store of the earlier round, merged in (batch identifiers are distinct)
-			if sa, err := w.Signatures(i, fx.RoundA); err == nil {
-				if s == nil {
-					s = sigrepo.SignaturesStorage{}
-				}
-				for b, v := range sa {
-					s[b] = v
-				}
-			}
+			sa, _ := w.Signatures(i, fx.RoundA) // the earlier round's store, kept apart: what is stored under a round belongs to it
+			obs.NodeSigsA = append(obs.NodeSigsA, sa)
 		}
 		obs.NodeSigs = append(obs.NodeSigs, s)
 		obs.States = append(obs.States, w.StateOf(i, fx.Round))
@@ -588,7 +603,7 @@ func genPayloadTask(rt *rapid.T, k int, big bool) sTask {
 	default:
 		pl = rapid.SliceOfN(rapid.Byte(), 1, 96).Draw(rt, "payload")
 	}
-	names := []string{"plain.txt", "with space.bin", "файл-юникод.dat", "a/b/../c.json", "tab\tname", "名前", "x"}
+	names := []string{"plain.txt", "with space.bin", "файл-юникод.dat", "a/b/../c.json", "tab\tname", "名前", "x", "bakedrange3", "bakedrange52694.json"} // (the last two look like the names given to baked messages)
 	file := rapid.SampledFrom(names).Draw(rt, "file") + "#" + strconv.Itoa(k)
 	tk := sTask{ID: fmt.Sprintf("msg-%d-%s", k, rapid.StringMatching(`[a-zA-Z0-9_]{1,8}`).Draw(rt, "id")), File: file, Payload: pl}
 	if len(pl) == 0 && rapid.Bool().Draw(rt, "strayRange") {
